@@ -1,5 +1,262 @@
 import Astria.Abci.Model
-/- Theorems for area `abci` (stub). -/
+/-
+Lemmas and main theorems about `Astria.Abci` (properties C05 and C06).
+The property statements proper are restated in `Astria/Properties/C05.lean`, `C06.lean`.
+-/
 namespace Astria.Abci
+variable {S : Type} (p : Prims S)
+
+/-! ## The execution-state machine -/
+
+theorem checkExecuted_true {e : ExecState} {h : Nat} {e' : ExecState}
+    (hh : e.checkExecuted h = (e', true)) :
+    ∃ cp, e = .executedBlock h cp ∧ e' = e := by
+  cases e <;> simp [ExecState.checkExecuted] at hh
+  rename_i h' cp
+  split at hh
+  · simp at hh; subst_vars; exact ⟨cp, rfl, rfl⟩
+  · simp at hh
+
+theorem checkPrepared_true {e : ExecState} {c : CachedProposal} {e' : ExecState}
+    (h : e.checkPrepared c = (e', true)) :
+    (e = .prepared c ∨ e = .preparedValid c) ∧ e' = .preparedValid c := by
+  cases e <;> simp [ExecState.checkPrepared] at h
+  all_goals (split at h <;> simp at h; subst_vars; simp)
+
+/-! ## The three execution loops -/
+theorem push_ok {st st' : LoopSt S} {s' : S} {t : Tx} {code : Nat}
+    (h : st.push s' t code = .ok st') :
+    st'.s = s' ∧ st'.done = st.done ++ [(t, code)] ∧ st'.group = t.group ∧
+    st'.bsc.curSeq = st.bsc.curSeq + t.seq ∧ st'.bsc.curComet = st.bsc.curComet + t.len ∧
+    st'.bsc.maxSeq = st.bsc.maxSeq ∧ st'.bsc.maxComet = st.bsc.maxComet ∧
+    st'.bsc.curSeq ≤ st'.bsc.maxSeq ∧ st'.bsc.curComet ≤ st'.bsc.maxComet := by
+  unfold LoopSt.push BSC.seqAdd BSC.cometAdd at h
+  split at h
+  · simp at h
+  · rename_i b1 hb1
+    split at hb1
+    · simp at hb1
+    · split at hb1
+      · split at h
+        · simp at h
+        · rename_i b2 hb2
+          split at hb2
+          · simp at hb2
+          · split at hb2
+            · simp at hb1 hb2 h
+              subst hb1 hb2 h
+              simp_all
+            · simp at hb2
+      · simp at hb1
+
+/-- `push` succeeds whenever both counters stay within their limits (and below `usize::MAX`). -/
+theorem push_succeeds (st : LoopSt S) (s' : S) (t : Tx) (code : Nat)
+    (hs : st.bsc.curSeq + t.seq ≤ st.bsc.maxSeq) (hsm : st.bsc.maxSeq ≤ usizeMax)
+    (hc : st.bsc.curComet + t.len ≤ st.bsc.maxComet) (hcm : st.bsc.maxComet ≤ usizeMax) :
+    ∃ st', st.push s' t code = .ok st' := by
+  unfold LoopSt.push BSC.seqAdd BSC.cometAdd
+  have h1 : ¬ (st.bsc.curSeq + t.seq > usizeMax) := by omega
+  have h2 : ¬ (st.bsc.curComet + t.len > usizeMax) := by omega
+  simp [h1, hs, h2, hc]
+
+/-- The executed list `l`, run in order from `s`, produces exactly the recorded outcomes (code 0 =
+executed, `failedExecutionCode` = failed non-fatally, state untouched) and ends in `s'`. -/
+inductive Runs : S → List Executed → S → Prop
+  | nil (s : S) : Runs s [] s
+  | ok {s s' s'' : S} {t : Tx} {l : List Executed} :
+      p.execTx s t = .ok s' → Runs s' l s'' → Runs s ((t, 0) :: l) s''
+  | nonfatal {s s'' : S} {t : Tx} {l : List Executed} :
+      p.execTx s t = .nonfatal → Runs s l s'' → Runs s ((t, failedExecutionCode) :: l) s''
+
+/-- every transaction's group is at most the group of its predecessor (the first: at most `g`) -/
+def GroupChain : Nat → List Executed → Prop
+  | _, [] => True
+  | g, e :: l => e.1.group ≤ g ∧ GroupChain e.1.group l
+
+def lenSum (l : List Executed) : Nat := (l.map (·.1.len)).sum
+def seqSum (l : List Executed) : Nat := (l.map (·.1.seq)).sum
+
+@[simp] theorem lenSum_nil : lenSum [] = 0 := rfl
+@[simp] theorem seqSum_nil : seqSum [] = 0 := rfl
+@[simp] theorem lenSum_cons (e : Executed) (l) : lenSum (e :: l) = e.1.len + lenSum l := by simp [lenSum]
+@[simp] theorem seqSum_cons (e : Executed) (l) : seqSum (e :: l) = e.1.seq + seqSum l := by simp [seqSum]
+
+/-- What one run of a loop added to the loop state. -/
+structure Ext (st st' : LoopSt S) (added : List Executed) : Prop where
+  done : st'.done = st.done ++ added
+  runs : Runs p st.s added st'.s
+  chain : GroupChain st.group added
+  grp : st'.group ≤ st.group
+  comet : st'.bsc.curComet = st.bsc.curComet + lenSum added
+  seq : st'.bsc.curSeq = st.bsc.curSeq + seqSum added
+  maxC : st'.bsc.maxComet = st.bsc.maxComet
+  maxS : st'.bsc.maxSeq = st.bsc.maxSeq
+  fitC : st.bsc.curComet ≤ st.bsc.maxComet → st'.bsc.curComet ≤ st'.bsc.maxComet
+  fitS : st.bsc.curSeq ≤ st.bsc.maxSeq → st'.bsc.curSeq ≤ st'.bsc.maxSeq
+
+theorem Ext.refl (st : LoopSt S) : Ext p st st [] :=
+  ⟨by simp, Runs.nil _, trivial, Nat.le_refl _, by simp, by simp, rfl, rfl, id, id⟩
+
+theorem Ext.step_ok {st st1 st' : LoopSt S} {s' : S} {t : Tx} {added : List Executed}
+    (hx : p.execTx st.s t = .ok s') (hg : t.group ≤ st.group)
+    (hp : st.push s' t 0 = .ok st1) (he : Ext p st1 st' added) : Ext p st st' ((t, 0) :: added) := by
+  obtain ⟨h1, h2, h3, h4, h5, h6, h7, h8, h9⟩ := push_ok hp
+  refine ⟨?_, ?_, ?_, ?_, ?_, ?_, ?_, ?_, ?_, ?_⟩
+  · rw [he.done, h2]; simp
+  · exact Runs.ok hx (h1 ▸ he.runs)
+  · exact ⟨hg, h3 ▸ he.chain⟩
+  · have := he.grp; omega
+  · rw [he.comet, h5]; simp; omega
+  · rw [he.seq, h4]; simp; omega
+  · rw [he.maxC, h7]
+  · rw [he.maxS, h6]
+  · intro _; exact he.fitC h9
+  · intro _; exact he.fitS h8
+
+theorem Ext.step_nonfatal {st st1 st' : LoopSt S} {t : Tx} {added : List Executed}
+    (hx : p.execTx st.s t = .nonfatal) (hg : t.group ≤ st.group)
+    (hp : st.push st.s t failedExecutionCode = .ok st1) (he : Ext p st1 st' added) :
+    Ext p st st' ((t, failedExecutionCode) :: added) := by
+  obtain ⟨h1, h2, h3, h4, h5, h6, h7, h8, h9⟩ := push_ok hp
+  refine ⟨?_, ?_, ?_, ?_, ?_, ?_, ?_, ?_, ?_, ?_⟩
+  · rw [he.done, h2]; simp
+  · exact Runs.nonfatal hx (h1 ▸ he.runs)
+  · exact ⟨hg, h3 ▸ he.chain⟩
+  · have := he.grp; omega
+  · rw [he.comet, h5]; simp; omega
+  · rw [he.seq, h4]; simp; omega
+  · rw [he.maxC, h7]
+  · rw [he.maxS, h6]
+  · intro _; exact he.fitC h9
+  · intro _; exact he.fitS h8
+
+/-- `prepare_proposal_tx_execution`: whatever the queue and the outcomes, the loop state is
+extended by a list of transactions of the queue that ran ok / non-fatally in that order, in group
+order, with both counters accounted exactly and within their limits. -/
+theorem prepLoop_ext : ∀ (q : List Tx) (st st' : LoopSt S),
+    prepLoop p st q = .ok st' → ∃ added, Ext p st st' added ∧ (added.map (·.1)).Sublist q := by
+  intro q
+  induction q with
+  | nil => intro st st' h; simp [prepLoop] at h; subst h; exact ⟨[], Ext.refl p st, by simp⟩
+  | cons t ts ih =>
+    intro st st' h
+    unfold prepLoop at h
+    split at h
+    · simp at h; subst h; exact ⟨[], Ext.refl p st, by simp⟩
+    · split at h
+      · obtain ⟨a, ha, hs⟩ := ih _ _ h; exact ⟨a, ha, hs.cons _⟩
+      · split at h
+        · obtain ⟨a, ha, hs⟩ := ih _ _ h; exact ⟨a, ha, hs.cons _⟩
+        · rename_i hg
+          have hg' : t.group ≤ st.group := by omega
+          split at h
+          · rename_i s' hx
+            split at h
+            · rename_i st1 hp
+              obtain ⟨a, ha, hs⟩ := ih _ _ h
+              exact ⟨(t, 0) :: a, Ext.step_ok p hx hg' hp ha, by simpa using hs.cons_cons t⟩
+            · simp at h
+          · rename_i hx
+            split at h
+            · rename_i st1 hp
+              obtain ⟨a, ha, hs⟩ := ih _ _ h
+              exact ⟨(t, failedExecutionCode) :: a, Ext.step_nonfatal p hx hg' hp ha, by simpa using hs.cons_cons t⟩
+            · simp at h
+          · obtain ⟨a, ha, hs⟩ := ih _ _ h; exact ⟨a, ha, hs.cons _⟩
+          · obtain ⟨a, ha, hs⟩ := ih _ _ h; exact ⟨a, ha, hs.cons _⟩
+
+/-- `process_proposal_tx_execution` accepts only if every transaction, in order, passes the
+sequenced-data check and the group check and executes ok or non-fatally. -/
+theorem procLoop_ext : ∀ (txs : List Tx) (st st' : LoopSt S),
+    procLoop p st txs = .ok st' → ∃ added, Ext p st st' added ∧ added.map (·.1) = txs := by
+  intro txs
+  induction txs with
+  | nil => intro st st' h; simp [procLoop] at h; subst h; exact ⟨[], Ext.refl p st, by simp⟩
+  | cons t ts ih =>
+    intro st st' h
+    unfold procLoop at h
+    split at h
+    · simp at h
+    · split at h
+      · simp at h
+      · rename_i hg
+        have hg' : t.group ≤ st.group := by omega
+        split at h
+        · rename_i s' hx
+          split at h
+          · rename_i st1 hp
+            obtain ⟨a, ha, hs⟩ := ih _ _ h
+            exact ⟨(t, 0) :: a, Ext.step_ok p hx hg' hp ha, by simp [hs]⟩
+          · simp at h
+        · rename_i hx
+          split at h
+          · rename_i st1 hp
+            obtain ⟨a, ha, hs⟩ := ih _ _ h
+            exact ⟨(t, failedExecutionCode) :: a, Ext.step_nonfatal p hx hg' hp ha, by simp [hs]⟩
+          · simp at h
+        · simp at h
+        · simp at h
+
+/-- Conversely: a list that runs ok / non-fatally in order, respects the group order and fits
+both limits is accepted by the process loop, with the same final state and results. -/
+theorem procLoop_complete : ∀ (added : List Executed) (st : LoopSt S) (s' : S),
+    Runs p st.s added s' → GroupChain st.group added →
+    st.bsc.curSeq + seqSum added ≤ st.bsc.maxSeq → st.bsc.maxSeq ≤ usizeMax →
+    st.bsc.curComet + lenSum added ≤ st.bsc.maxComet → st.bsc.maxComet ≤ usizeMax →
+    ∃ st', procLoop p st (added.map (·.1)) = .ok st' ∧ st'.s = s' ∧ st'.done = st.done ++ added := by
+  intro added
+  induction added with
+  | nil =>
+    intro st s' hr _ _ _ _ _
+    cases hr
+    exact ⟨st, by simp [procLoop], rfl, by simp⟩
+  | cons e l ih =>
+    intro st s' hr hg hs hsm hc hcm
+    obtain ⟨hg1, hg2⟩ := hg
+    simp at hs hc
+    have hseq : st.bsc.seqHasSpace e.1.seq = true := by
+      simp [BSC.seqHasSpace]; omega
+    have hgrp : ¬ (e.1.group > st.group) := by omega
+    cases hr with
+    | ok hx hrest =>
+      rename_i s1 t
+      obtain ⟨st1, hp⟩ := push_succeeds st s1 t 0 (by simp at hs ⊢; omega) hsm (by simp at hc ⊢; omega) hcm
+      obtain ⟨h1, h2, h3, h4, h5, h6, h7, h8, h9⟩ := push_ok hp
+      obtain ⟨st', hl, hs', hd⟩ := ih st1 s' (h1 ▸ hrest) (h3 ▸ hg2)
+        (by rw [h4, h6]; simp at hs; omega) (by rw [h6]; exact hsm)
+        (by rw [h5, h7]; simp at hc; omega) (by rw [h7]; exact hcm)
+      refine ⟨st', ?_, hs', ?_⟩
+      · simp only [List.map_cons]
+        unfold procLoop
+        simp at hseq hgrp
+        simp [hseq, hgrp, hx, hp, hl]
+      · rw [hd, h2]; simp
+    | nonfatal hx hrest =>
+      rename_i t
+      obtain ⟨st1, hp⟩ := push_succeeds st st.s t failedExecutionCode (by simp at hs ⊢; omega) hsm (by simp at hc ⊢; omega) hcm
+      obtain ⟨h1, h2, h3, h4, h5, h6, h7, h8, h9⟩ := push_ok hp
+      obtain ⟨st', hl, hs', hd⟩ := ih st1 s' (h1 ▸ hrest) (h3 ▸ hg2)
+        (by rw [h4, h6]; simp at hs; omega) (by rw [h6]; exact hsm)
+        (by rw [h5, h7]; simp at hc; omega) (by rw [h7]; exact hcm)
+      refine ⟨st', ?_, hs', ?_⟩
+      · simp only [List.map_cons]
+        unfold procLoop
+        simp at hseq hgrp
+        simp [hseq, hgrp, hx, hp, hl]
+      · rw [hd, h2]; simp
+
+/-- The finalize loop replays such a list to the same state and results. -/
+theorem finLoop_of_runs : ∀ (added : List Executed) (s s' : S) (done : List Executed),
+    Runs p s added s' → finLoop p s done (added.map (·.1)) = (s', done ++ added) := by
+  intro added
+  induction added with
+  | nil => intro s s' done hr; cases hr; simp [finLoop]
+  | cons e l ih =>
+    intro s s' done hr
+    cases hr with
+    | ok hx hrest =>
+      simp only [List.map_cons]; unfold finLoop; simp [hx, ih _ _ _ hrest]
+    | nonfatal hx hrest =>
+      simp only [List.map_cons]; unfold finLoop; simp [hx, ih _ _ _ hrest]
 
 end Astria.Abci
